@@ -79,3 +79,43 @@ impl Maker for DeepMaker {
         json!({"from_seed": hex(&self.seed), "then_skip_bytes": self.skip_bytes})
     }
 }
+
+/// A generator positioned `skip_words` native calls into the stream of `seed` (used to start right
+/// before a rare event found on the reference model).
+pub struct SkipMaker {
+    pub ty: &'static dyn GenType,
+    pub seed: Vec<u8>,
+    pub skip_words: u64,
+}
+
+impl Maker for SkipMaker {
+    fn make(&self) -> Box<dyn Gen> {
+        let mut g = self.ty.from_seed(&self.seed);
+        let w32 = self.ty.info().word_bits == 32;
+        for _ in 0..self.skip_words {
+            if w32 {
+                g.next_u32();
+            } else {
+                g.next_u64();
+            }
+        }
+        g
+    }
+    fn info(&self) -> &TypeInfo {
+        self.ty.info()
+    }
+    fn describe(&self) -> Value {
+        json!({"from_seed": hex(&self.seed), "then_native_calls": self.skip_words})
+    }
+}
+
+/// (type name, events) for the three array-based generators
+pub fn rare_events(reg: &dyn Registry, vseed: u64, thorough: bool) -> Vec<(&'static dyn GenType, Vec<crate::rare::Event>)> {
+    let mut out = Vec::new();
+    for (name, kind) in [("Hc128Rng", crate::rare::Kind::Hc128), ("IsaacRng", crate::rare::Kind::Isaac), ("Isaac64Rng", crate::rare::Kind::Isaac64)] {
+        if let Some(ty) = reg.get(name) {
+            out.push((ty, crate::rare::events_for(kind, vseed, thorough).0));
+        }
+    }
+    out
+}
